@@ -233,7 +233,7 @@ func GenC07(seed, index uint64) *Workload {
 			nops = 3 + r.Intn(5)
 		}
 		if bigRun {
-			nops = 2 + r.Intn(3)
+			nops = 3 + r.Intn(3)
 		}
 		if famRun {
 			nops = 3 + r.Intn(3)
@@ -426,7 +426,20 @@ func GenC15(seed, index uint64) *Workload {
 		w.Docs = []string{GenBigDoc(r.Fork(3), "S")}
 		w.Exprs = []ExprSpec{specOf(GenBigExpr(r.Fork(4)))}
 	}
-	if r.P(1, 25) {
+	if r.P(1, 60) {
+		// twin sample: two texts that differ only in white space inside a
+		// literal or quoted identifier; both are evaluated in this process and,
+		// in shuffled order, in the oracle process
+		pair := pick(r, [][2]string{{`'it\'s  here'`, `'it\'s here'`}, {`'a  b'`, `'a b'`}, {"'a\tb'", `'a b'`}, {`"k  1"`, `"k 1"`}, {"split(s, '\t')", `split(s, ' ')`}, {"`\"x  y\"`", "`\"x y\"`"}})
+		wrap := pick(r, []string{"%s", "[%s, tag]", "{\"v\": %s}", "not_null(%s, n)"})
+		w.Exprs = nil
+		i := r.Intn(2)
+		for _, t := range []string{pair[i], pair[1-i]} {
+			txt := strings.Replace(wrap, "%s", t, 1)
+			w.Exprs = append(w.Exprs, ExprSpec{Text: txt, Tree: &Expr{K: KRaw, S: txt}})
+		}
+		w.Note += " twins"
+	} else if r.P(1, 25) {
 		w.Docs = []string{GenMediumDoc(r.Fork(3), "S")}
 		w.Exprs = []ExprSpec{specOf(GenBigExpr(r.Fork(4)))}
 	} else if r.P(1, 20) {
